@@ -139,7 +139,7 @@ LinkedList *bufr_load_tables_list ( char *path, int tbnos[], int nb )
    env = getenv( "WMO_BUFR_TABLES" );
    if (env != NULL)
       {
-      sprintf( filename, "%s/fromWeb", env );
+      snprintf( filename, sizeof(filename), "%s/fromWeb", env );
       tb = bufr_load_wmo_tables_list ( list, filename );
       }
 /*
@@ -158,11 +158,11 @@ LinkedList *bufr_load_tables_list ( char *path, int tbnos[], int nb )
       tb = tbnos[i];
       tables = bufr_create_tables();
       rtrnB = rtrnD = -1;
-      sprintf( filename, "%s/table_b_bufr-%d", path, tb );
+      snprintf( filename, sizeof(filename), "%s/table_b_bufr-%d", path, tb );
       if( stat(filename,&buf) == 0 )
          if ( !S_ISDIR( buf.st_mode ) )
             rtrnB = bufr_load_m_tableB( tables, filename );
-      sprintf( filename, "%s/table_d_bufr-%d", path, tb );
+      snprintf( filename, sizeof(filename), "%s/table_d_bufr-%d", path, tb );
       if( stat(filename,&buf) == 0 )
          if ( !S_ISDIR( buf.st_mode ) )
             rtrnD = bufr_load_m_tableD( tables, filename );
